@@ -81,6 +81,7 @@ def op_strategy(races):
     if races:
         ops = [st.tuples(st.just('at_call'), st.integers(1, 6), WORLD_OP).map(list)] * 5 + ops
         ops += [st.tuples(st.just('miss'), st.integers(1, 2), BLOCK).map(list)] * 2
+        ops += [st.tuples(st.just('vanish'), st.integers(1, 6), st.integers(0, 9)).map(list)] * 2
     return st.one_of(*ops)
 
 
@@ -123,6 +124,7 @@ class MempoolMachine:
         self.max_tip_seen = self.world.height
         self.min_fp = None
         self.deferred = []
+        self.vanished = []
         self.info = {'classes': set(), 'stable_refreshes': 0, 'refreshes': 0, 'nt': 0,
                      'events_in_refresh': 0, 'accept_depth_max': 0, 'matrix': {}}
         self.violation = None
@@ -164,6 +166,11 @@ class MempoolMachine:
             return
         self.info['refreshes'] += 1
         self.in_refresh = False
+        if self.vanished:
+            for txs in self.vanished:
+                self.world.mp_restore(txs)
+            self.vanished = []
+            self.info['classes'].add('tx_vanished_during_refresh_and_returned_before_next_listing')
         self.touched_since_stable |= touched
         s = self.server
         w = self.world
@@ -307,6 +314,11 @@ class MempoolMachine:
                     self.was_in_mempool.add(tx.txid)
         elif kind == 'mp_evict':
             w.mp_evict(op[1])
+        elif kind == 'mp_vanish':
+            # leaves the daemon's mempool now and is broadcast again before the next listing: the
+            # listing of the next refresh equals this one's although this one could not fetch it
+            if w.mp_evict(op[1]):
+                self.vanished.append(w.last_evicted)
         elif kind == 'mp_flood':
             if self.floods < 1:
                 self.floods += 1
@@ -394,6 +406,8 @@ class MempoolMachine:
                     await self.wait_stable()
                 elif kind == 'at_call':
                     self.deferred.append([op[1], op[2]])
+                elif kind == 'vanish':
+                    self.deferred.append([op[1], ['mp_vanish', op[2]]])
                 elif kind == 'miss':
                     # UTXO lookups miss: a new tx spends the newest confirmed output, the lookup
                     # job is slow, and meanwhile a fork undoes the block that created that output
